@@ -20,6 +20,7 @@ R4.8  body dispatch: the variable each request template references is defined by
 from __future__ import annotations
 
 import ast
+import re
 from typing import Dict, List, Optional, Set, Tuple
 
 from sa.cfg import CFG, guards
@@ -212,27 +213,36 @@ def run(repo: Repo, rep: Report, tier: str) -> None:
     grc = rg.classes["EndpointRequestGenerator"].methods.get("generate_request_call")
     if grc is None:
         raise AnalysisError("anchor vanished: generate_request_call")
+    gua = ua.classes["EndpointUrlArgsGenerator"].methods.get("generate_url_and_args")
+    if gua is None:
+        raise AnalysisError("anchor vanished: generate_url_and_args")
+    from sa.report import with_flatten_fallback
+
+    with_flatten_fallback(rep, grc, lambda f, r: _rule_4_8(f, gua, rg, r))
+
+
+def _rule_4_8(grc: Function, gua: Function, rg, rep) -> None:
     cfg = CFG(grc.node)
     dom = cfg.dominators()
     body_adds = []
     for nd in cfg.nodes:
         if nd.kind != "stmt" or nd.ast is None or nd.copy:
             continue
-        for c in calls_in(nd.ast):
-            if isinstance(c.func, ast.Attribute) and c.func.attr == "append" and c.args and const_str(c.args[0]) and (const_str(c.args[0]) or "").split("=")[0] in ("json", "data", "files") \
-                    and not (const_str(c.args[0]) or "").endswith("=None"):
+        # a keyword-argument literal of the transport call (`"json=json_body"`) appended, listed or returned by this statement
+        for c in ast.walk(nd.ast):
+            if isinstance(c, ast.Constant) and isinstance(c.value, str) and re.fullmatch(r"(json|data|files)=(?!None$)\w+", c.value):
                 body_adds.append((nd, c))
     rep.require(len(body_adds) >= 4, f"R4.8: only {len(body_adds)} body argument emits found (floor 4)")
     want_var = {"json": "json_body", "files": "files_data"}
     for nd, c in body_adds:
-        lit = const_str(c.args[0]) or ""
+        lit = c.value or ""
         gs = guards(cfg, nd.id, dom)
         GL = Locals(grc.node)
         gtxt = []
         other = []
         for g, p in gs:
-            if g.kind != "test" or p is None:
-                continue
+            if g.kind != "test" or p is None or isinstance(g.ast, ast.Constant):
+                continue  # (`while True:` of a written-out helper is no condition)
             conj = g.ast.values if p is True and isinstance(g.ast, ast.BoolOp) and isinstance(g.ast.op, ast.And) else [g.ast]
             for cj in conj:
                 pj = p
@@ -257,18 +267,15 @@ def run(repo: Repo, rep: Report, tier: str) -> None:
         else:
             rep.ok("R4.8", sub, f"emitted whenever the operation has a request body of that content type ({[g[:40] for g in gtxt]})", grc.loc(c))
     # the variables referenced are defined by url_args_generator under the same content type
-    gua = ua.classes["EndpointUrlArgsGenerator"].methods.get("generate_url_and_args")
-    if gua is None:
-        raise AnalysisError("anchor vanished: generate_url_and_args")
     gtxt_all = " ".join(t for t, _ in _emitted_lines(gua))
     for _, c in body_adds:
-        lit = const_str(c.args[0]) or ""
+        lit = c.value or ""
         var = lit.split("=", 1)[1]
         if not (f"{var} " in gtxt_all or f"{var}:" in gtxt_all or f"{var}=" in gtxt_all):
             rep.violation("R4.8", f"request template variable `{var}`", f"body-var-undefined|{var}",
                           f"`{lit}` refers to `{var}`, which no template of generate_url_and_args defines (NameError in the generated method)", grc.loc(c))
     for var in ("json_body", "files_data", "form_data_body", "bytes_body"):
-        used = any(var in (const_str(c.args[0]) or "") for _, c in body_adds)
+        used = any(var in (c.value or "") for _, c in body_adds)
         defined = f"{var} " in gtxt_all or f"{var}:" in gtxt_all or f"{var}=" in gtxt_all
         sub = f"request template variable `{var}`"
         if used and defined:
